@@ -16,6 +16,7 @@ struct vp_sem_ghost {
 	unsigned wakes;        /* FUTEX_WAKE calls */
 	int wake_after_post;   /* every FUTEX_WAKE so far came after this thread's increment */
 	unsigned reads_at_timeout;  /* vp_clk.reads when the last futex ETIMEDOUT was reported */
+	int finite_deadline;   /* C15: the call in progress was given a deadline other than nsync_time_no_deadline (set by the harness) */
 };
 extern struct vp_sem_ghost vp_s;
 extern int vp_errno;     /* errno of this thread (glibc: *__errno_location ()) */
